@@ -267,6 +267,23 @@ def _case_random_tree(run, rng, quick, case_seed, icase):
     if zero:
         return case
 
+    # ---- the operator acting on a state: TTNO.apply / @ against the dense matrix-vector product
+    if first is not None:
+        st_ = L.random_ttns_tensors(rng, spec_a, descs_all, max_bond=3, cplx=bool(rng.random() < 0.4))
+        if st_ is not None:
+            try:
+                psi = L.dense_from_spec(spec_a, descs_all, st_["tensors"], phys)
+                tt = L.build_ttns(tree_a, spec_a, st_["tensors"], st_["qns"])
+                out = first.apply(tt) if rng.random() < 0.5 else first @ tt
+                got = np.asarray(out.todense([bl[b] for b in phys])).reshape(psi.shape)
+                dimp = int(np.prod(psi.shape))
+                want = (np.asarray(ref0).reshape(dimp, dimp) @ psi.reshape(dimp)).reshape(psi.shape)
+                sc = float(np.abs(ref0).max()) * max(float(np.abs(psi).max()), 1e-300)
+                case.close("apply-to-state", algos[0], got, want, 64 * EPS * max(4, len(terms)) * 8, sc)
+                run.count("apply-to-state:checked")
+            except Exception as e:  # noqa
+                case.violation(f"apply-to-state:raises:{type(e).__name__}", message=repr(e)[:300])
+
     # ---- other topology over the same basis sets (terms on a's dummies are dropped: they are scalars)
     def strip(term_list, keep_dummies_of):
         out = []
